@@ -354,7 +354,10 @@ def _check_wake(run, repo, world, mod):
     # bus watch task cancelled and state reset for the next handshake
     body = " ".join(unparse(s) for s in sfn.body)
     run.ob("R-WAKE", HID + ".tridonic._shutdown_device#handshake-reset",
-           "self._bus_watch_task.cancel()" in ast.unparse(sfn) and
+           any(isinstance(c_, ast.Call) and isinstance(
+               c_.func, ast.Attribute) and c_.func.attr == "cancel" and
+               astq.canon(sfn, c_.func.value) == "self._bus_watch_task"
+               for c_ in ast.walk(sfn)) and
            _unconditional(sfn, ["self.firmware_version = None",
                                 "self.serial = None"]),
            "handshake state (firmware_version, serial) must be reset "
